@@ -3,7 +3,7 @@ From IV Require Import Base.Bytes Base.BytesFacts Model.Policy Model.Smtp Model.
 From Coq Require Import ZifyBool ZifyNat Lia.
 From IV Require Import Proofs.SmtpThms.
 Theorem size_param_refused : forall c s n o h,
-  st s = READY -> (max_bytes c < n)%Z ->
+  st s = READY -> (max_bytes c < n)%Z -> (n <= int32_max)%Z ->
   step c s (L (Mail (MParsed (SzVal n) o) h)) = Ok s (one 552) [].
-Proof. exact SmtpThms.size_param_refused. Qed.
+Proof. first [exact SmtpThms.size_param_refused | intros; apply SmtpThms.size_param_refused]. Qed.
 Print Assumptions size_param_refused.
